@@ -293,11 +293,15 @@ class DeepMultiError(MultiError):
     pass
 
 
+class Cancelled(BaseException):
+    """a request cancelled from outside (like KeyboardInterrupt / asyncio.CancelledError): not an Exception"""
+
+
 class AppError(Exception):
     """an application's own exception class, bound to a name in the namespace"""
 
 
-EXC.update({'AppError': AppError, 'MultiError': MultiError, 'DeepMultiError': DeepMultiError, 'UnsupportedOperation': io.UnsupportedOperation,
+EXC.update({'Cancelled': Cancelled, 'AppError': AppError, 'MultiError': MultiError, 'DeepMultiError': DeepMultiError, 'UnsupportedOperation': io.UnsupportedOperation,
             'OSError': OSError})
 
 
@@ -498,7 +502,7 @@ def run_case(case, plan, sty='dtml', cls=None, cache_key=None):
         try:
             r = t(client, mapping, **kw)
             res = ['ok', ident_result(r)]
-        except Exception as e:  # noqa
+        except (Exception, Cancelled) as e:  # noqa
             a = e.args[0] if e.args else ''
             res = ['exc', type(e).__name__, a if isinstance(a, str) else repr(a)]
     finally:
